@@ -1,4 +1,5 @@
 from datetime import datetime
+from dsw import _verif
 
 
 class Monitor(object):
@@ -331,6 +332,8 @@ def number_to_bit(decimal_number, bit_length):
     one_array = []
     if type(decimal_number) == str:
         while decimal_number != "0":  # decimal number > 0
+            if _verif.ON:
+                _verif.tick("n2b", qlen=len(decimal_number))
             decimal_number, remainder = calculus_division(number=decimal_number, base="2")
             one_array.insert(0, int(remainder))
     elif type(decimal_number) == int:
@@ -413,6 +416,8 @@ def number_to_dna(decimal_number, dna_length):
 
     if type(decimal_number) == str:
         while decimal_number != "0":  # decimal number > 0
+            if _verif.ON:
+                _verif.tick("n2d", qlen=len(decimal_number))
             decimal_number, remainder = calculus_division(number=decimal_number, base=str(len(nucleotides)))
             one_array.insert(0, nucleotides[int(remainder)])
     elif type(decimal_number) == int:
